@@ -27,10 +27,12 @@ TIERS = {
     "quick": {"shards": 4, "cases": 4000, "timeout": 300},
     "thorough": {"shards": 16, "cases": 12000, "timeout": 3000},
 }
-FLOORS = {"quick": {"distinct_nontrivial": 800, "tokens_checked": 50000, "nodes_checked": 30000,
+FLOORS = {"quick": {"original_text_asked_with_the_text_in_another_form": 100000,
+                    "distinct_nontrivial": 800, "tokens_checked": 50000, "nodes_checked": 30000,
                     "empty_nodes_checked": 2000, "multiline_span_tokens": 500, "lexical_errors_checked": 300,
                     "first_tokens_of_later_lines": 5000},
-          "thorough": {"distinct_nontrivial": 30000, "tokens_checked": 2000000, "nodes_checked": 1000000,
+          "thorough": {"original_text_asked_with_the_text_in_another_form": 400000,
+                       "distinct_nontrivial": 30000, "tokens_checked": 2000000, "nodes_checked": 1000000,
                        "empty_nodes_checked": 80000, "multiline_span_tokens": 20000,
                        "lexical_errors_checked": 10000, "first_tokens_of_later_lines": 200000}}
 LEVEL_TEXT = ("Runtime exploration with an exact reference: the harness builds every text from pieces and knows "
